@@ -19,7 +19,7 @@ pub(crate) struct PhoneticSuggestion {
     // for regex conversion every time.
     regex: String,
     // Cache for storing dictionary searches.
-    cache: HashMap<String, Vec<Rank>, RandomState>,
+    pub(crate) cache: HashMap<String, Vec<Rank>, RandomState>,
     phonetic: Parser,
     regex_parser: Parser,
     table: HashMap<&'static str, &'static [&'static str], RandomState>,
